@@ -8,7 +8,7 @@ from vf.core import unjson_array
 
 CANDS = ["fixed_window", "local_queues"]
 MATCH = ["hungarian", "greedy"]
-FEATS = [("keypoints", "oks"), ("centroids", "euclidean_dist"), ("bboxes", "iou")]
+FEATS = [("keypoints", "oks"), ("centroids", "euclidean_dist"), ("bboxes", "iou"), ("keypoints", "euclidean_dist")]
 REDUCE = ["mean", "max"]
 
 
@@ -19,7 +19,7 @@ def all_configs(windows=(1, 2, 3, 5), thresholds=(0.0, 0.5)):
 
 
 def cfg_sig(cfg):
-    return (cfg["candidates_method"][:5], cfg["track_matching_method"][:4], cfg["features"][:4], cfg["scoring_reduction"], cfg["window_size"], cfg["instance_score_threshold"])
+    return (cfg["candidates_method"][:5], cfg["track_matching_method"][:4], cfg["features"][:4] + "+" + cfg["scoring_method"][:3], cfg["scoring_reduction"], cfg["window_size"], cfg["instance_score_threshold"])
 
 
 _SK = {}
